@@ -366,7 +366,16 @@ impl<T: Payload> World<T> {
                 _ => It::F(xid.following_siblings(arena)),
             };
             let (mut nf, mut nb, mut got_some) = (0usize, 0usize, 0usize);
+            let clone_at = word.len() / 2;
             for (i, front) in word.iter().enumerate() {
+                if i == clone_at {
+                    // the iterators are plain values: a clone taken mid-way continues identically
+                    iter = match &iter {
+                        It::C(x) => It::C(x.clone()),
+                        It::P(x) => It::P(x.clone()),
+                        It::F(x) => It::F(x.clone()),
+                    };
+                }
                 let g = match (&mut iter, *front) {
                     (It::C(i), true) => i.next(),
                     (It::C(i), false) => i.next_back(),
